@@ -8,7 +8,7 @@ KINDS = ["t4", "t6", "un"]
 
 
 def gen_scenario(rng, flavour=None):
-    fl = flavour or rng.choice(["servers", "servers", "servers", "ipc", "ipcbig", "connect", "mixed", "cscript", "backlog", "prebind"])
+    fl = flavour or rng.choice(["servers", "servers", "servers", "ipc", "ipcbig", "connect", "mixed", "cscript", "backlog", "prebind", "retry", "retry"])
     L = []
     meta = {"drained": set(), "fl": fl}
     if fl in ("servers", "mixed"):
@@ -65,6 +65,18 @@ def gen_scenario(rng, flavour=None):
         L.append("run 3")
         for s_ in range(ns):
             L.append(f"drain {s_}"); meta["drained"].add(s_)
+    if fl == "retry":
+        # connect callbacks that act on the SAME handle: re-submit the connect (to a failing target or to the live server,
+        # again when refused synchronously), queue a write, shut down, close - after an asynchronous failure
+        # (closed port -> ECONNREFUSED, missing path -> ENOENT) or after success
+        L.append("server 0 t4 imm"); L.append("server 1 un imm")
+        for r_ in range(rng.range(1, 5)):
+            kind = rng.choice(["tcp", "pipe"])
+            n = rng.range(1, 4)
+            script = "".join(rng.choice("ggffwWsc-") for _ in range(n))
+            L.append(f"retry {r_} {kind} {0 if kind == 'tcp' else 1} {rng.choice('fffg')} {script}")
+            if rng.chance(1, 3): L.append("run 1")
+        L += ["run 2", "run 3"]
     if fl == "prebind":
         # tcp client handles that carry state from earlier calls when uv_tcp_connect() runs: bound to a port in use
         # (EADDRINUSE deferred by uv_tcp_bind), bound to a free port, or already connecting (second connect -> UV_EALREADY);
@@ -128,6 +140,7 @@ def sim_monitor(prog, meta, out):
         if w[0] == "server": srv_mode[int(w[1])] = w[3]
         if w[0] in ("raw", "uvc", "uvcb"): cli_sid[int(w[1])] = int(w[2]); cli_kind[int(w[1])] = "uvc" if w[0] == "uvcb" else w[0]
         if w[0] == "closecli": self_closed.add(int(w[1]))
+        if w[0] == "retry": cli_sid[200 + int(w[1])] = int(w[3])
     if any(o == "bad-op" for o in out):
         return ("sim-badop", "harness did not understand an op")
     # --- servers: EAGAIN iff nothing announced-and-unclaimed; announcements/claims counted from the callbacks
@@ -225,6 +238,22 @@ def sim_monitor(prog, meta, out):
         elif c in cli_sid and cli_sid[c] not in unavailable and ret == 0 and c not in self_closed:
             if st == 0 and c not in seen and alive.get(cli_sid[c]) and (srv_mode[cli_sid[c]] == "imm" or cli_sid[c] in meta["drained"]) and fired == 0 and cli_sid[c] not in stuck:
                 return ("connect-ok-not-established", f"client {c}: status 0 but the server never got it")
+    # --- connects re-submitted / handles used from inside the connect callback
+    userclosed = {int(o.split()[1]) for o in out if o.startswith("rclose")}
+    for o in out:
+        w = o.split(); d = kv(o)
+        if w[0] == "rcb" and d["status"] == "0" and d["peer"] != "1":
+            return ("connect-status-0-not-connected", f"retry handle {w[1]} attempt {d['att']}: status 0 without a peer")
+        if w[0] == "rfinal":
+            ret, cbs, st = int(d["ret"]), int(d["cbs"]), int(d["status"])
+            what = f"connect attempt {d['att']} on handle {w[1]} (target {'live server' if d['target'] == 'g' else 'nothing listening'})"
+            if ret == 0 and cbs != 1: return ("connect-cb-count", f"{what}: accepted but {cbs} callbacks")
+            if ret != 0 and cbs != 0: return ("connect-cb-after-error", f"{what}: refused ({ret}) but callback ran")
+            if ret == 0 and d["target"] == "g" and st != 0 and int(w[1]) not in userclosed:
+                return ("connect-resubmitted-never-completed" if st == -125 else "connect-status", f"{what}: status {st}, the server was listening and the handle was not closed by the user")
+            if ret == 0 and d["target"] == "f" and st == 0: return ("connect-status", f"{what}: status 0")
+        if w[0] == "rfinalw" and (d["writes"] != d["wcbs"] or d["shutdowns"] != d["shcbs"]):
+            return ("callback-write-shutdown-count", f"writes/shutdowns issued from a connect callback: {o}")
     if not any(o.startswith("loop-alive=0 close=0") for o in out):
         return ("loop-not-clean", f"requests/handles left after everything was closed: {out[-1] if out else ''}")
     # --- IPC with payloads: one handle per sending write, arriving with the first byte of that write
@@ -423,6 +452,31 @@ def model_diff(ctx, prog, out):
             return f"uv client {c}: uv_tcp_bind returned {[b[2] for b in binds]}, model {mb}"
         if mret != str(rets[0][1]) or mcbs != impl_cbs or mconn != str(1 if conns else 0):
             return f"uv client {c} ({rets[0][2]}), connect(2) calls {conns}: impl ret={rets[0][1]} callbacks={impl_cbs}  model ret={mret} connects={mconn} callbacks={mcbs}"
+    # retry handles: replay through connPre / callback ops / connPost
+    for l in prog:
+        w = l.split()
+        if w[0] != "retry" or any(ch in w[5] for ch in "wWs"): continue
+        rid = w[1]; cid = str(300 + int(rid)); kind = w[2]
+        q, exp, last, so, closed = [], [], 0, 0, False
+        for o in out:
+            x = o.split(); d = kv(o)
+            if x[0] == "sys" and d.get("cid") == cid:
+                if x[1] == "connect" and d["ret"] != "-4": last = d["ret"]
+                if x[1] == "soerror": so = d["val"]
+            elif x[0] == "resub" and x[1] == rid:
+                q.append(f"tcp 0 {last}" if kind == "tcp" else f"pipe 0 0 {last}"); exp.append(f"ret {d['r']}")
+            elif x[0] == "rcb" and x[1] == rid:
+                if d["status"] == "-125" and not closed: q += ["close", "destroy"]; closed = True
+                elif d["status"] == "-125": q.append("destroy")
+                else: q.append(f"iopre {so}")
+                exp.append(f"cb {d['status']}"); so = 0
+            elif x[0] == "rclose" and x[1] == rid: q.append("close"); closed = True
+            elif x[0] == "rcbend" and x[1] == rid and not (q and q[-1] == "destroy"): q.append("iopost")
+            elif x[0] == "rst" and x[1] == rid: q.append("st"); exp.append(f"st pollout={d['pollout']} pending={d['pending']}")
+        mo = [" ".join(m.split()[:1] + m.split()[2:]) if m.startswith("cb ") else m for m in ctx.driver(["retry"], "\n".join(q) + "\n").splitlines()]
+        if mo != exp:
+            k = next((i for i in range(min(len(mo), len(exp))) if mo[i] != exp[i]), min(len(mo), len(exp)))
+            return f"retry handle {rid}: event {k}: impl `{exp[k] if k < len(exp) else None}` model `{mo[k] if k < len(mo) else None}`; `{l}`"
     # failing connects
     for l in prog:
         w = l.split()
@@ -514,6 +568,8 @@ FIXED = [
     (["dblconnect 100 101", "run 3", "end"], set()),
     (["ipcbig tpu 10 4 -11 3 0 2 2", "end"], set()),
     (["server 0 t4 imm", "server 1 t6 defer", "uvcb 0 0 inuse", "uvcb 1 0 free", "uvcb 2 1 twice", "uvcb 3 1 inuse", "uvc 4 0", "run 3", "drain 1", "end"], {1}),
+    (["server 0 t4 imm", "server 1 un imm", "retry 0 tcp 0 f g", "retry 1 pipe 1 f g", "retry 2 tcp 0 f fg", "retry 3 pipe 1 f fgc", "retry 4 tcp 0 f wWc",
+      "retry 5 pipe 1 g s", "retry 6 tcp 0 f c", "run 2", "run 3", "end"], set()),
     (["server 0 un defer 0", "uvc 0 0", "uvc 1 0", "uvc 2 0", "uvc 3 0", "uvc 4 0", "run 3", "drain 0", "end"], {0}),
     (["server 0 un imm", "server 1 t4 imm", "cscript -4 -4 1", "uvc 0 1", "cscript -13", "uvc 1 1", "cscript -13", "uvc 2 0", "cscript -111", "uvc 3 1",
       "cscript -11", "uvc 4 1", "cscript -11", "uvc 5 0", "cscript -2", "uvc 6 0", "cscript -99", "uvc 7 0", "cscript -4 1", "uvc 8 0", "run 3", "end"], set()),
